@@ -548,10 +548,10 @@ class RoundTrip(Family):
             for dv in self.dvs:
                 for cv in self.cvs:
                     yield [dv, cv, r]
-        n = 220 if tier == "quick" else 4000
+        n = 420 if tier == "quick" else 6000
         for t in range(n):
             r = gen_recipe(rng, small=(t % 3 == 0))
-            if tier == "quick":
+            if tier == "quick" and t % 5 != 0:
                 # every Data version with the newest collection, every collection version with the
                 # newest Data, and two random pairs
                 pairs = {(dv, self.cvs[-1]) for dv in self.dvs} | {(self.dvs[-1], cv) for cv in self.cvs}
@@ -633,6 +633,217 @@ class RoundTrip(Family):
 
 
 
+# ------------------------------------------------------------------------------------------
+# round trips of the other registered types (all single-version today; every registered version
+# of each is exercised, so a second version added later is run against its own records too)
+# ------------------------------------------------------------------------------------------
+
+def _atom(x):
+    t = "".join(ch if (ch.isalnum() or ch in "._-+[]{}:,=/#*<>'") else "_" for ch in str(x))
+    return t or "empty"
+
+
+def _canon(o):
+    """Python value -> nested lists of ints / atoms (types are part of the canonical form)."""
+    import astropy.units as u
+    import shapely
+    from matplotlib.colors import Colormap
+    from glue.core import ComponentID, Component, VisualAttributes
+    from glue.core.component_id import PixelComponentID
+    from glue.core.component import CategoricalComponent
+    if o is None or isinstance(o, bool):
+        return o
+    if isinstance(o, (int, np.integer)):
+        return ["i", int(o)]
+    if isinstance(o, (float, np.floating)):
+        return ["f", _atom(repr(float(o)))]
+    if isinstance(o, str):
+        return ["s", _atom(o)]
+    if isinstance(o, np.datetime64):
+        return ["dt", _atom(o)]
+    if isinstance(o, np.ndarray):
+        return ["nd", _atom(o.dtype.str), list(o.shape), [_canon(x) for x in o.ravel().tolist()]]
+    if isinstance(o, slice):
+        return ["slice", _canon(o.start), _canon(o.stop), _canon(o.step)]
+    if isinstance(o, dict):
+        return ["dict", sorted(([_canon(k), _canon(v)] for k, v in o.items()), key=repr)]
+    if isinstance(o, tuple):
+        return ["tuple"] + [_canon(x) for x in o]
+    if isinstance(o, list):
+        return ["list"] + [_canon(x) for x in o]
+    if isinstance(o, set):
+        return ["set", sorted((_canon(x) for x in o), key=repr)]
+    if isinstance(o, u.UnitBase):
+        return ["unit", _atom(o.to_string())]
+    if isinstance(o, Colormap):
+        return ["cmap", _atom(o.name)]
+    if isinstance(o, shapely.Geometry):
+        return ["geom", _atom(shapely.to_wkt(o))]
+    if isinstance(o, PixelComponentID):
+        return ["pixcid", o.axis, _atom(o.label)]
+    if isinstance(o, ComponentID):
+        return ["cid", _atom(o.label), _atom(o.uuid)]
+    if isinstance(o, CategoricalComponent):
+        return ["catcomp", _canon(np.asarray(o.labels)), _canon(np.asarray(o.categories)), _atom(o.units)]
+    if isinstance(o, Component):
+        return ["comp", _canon(np.asarray(o.data)), _atom(o.units)]
+    if isinstance(o, VisualAttributes):
+        return ["style"] + [[_atom(a), _canon(getattr(o, a)) if not isinstance(getattr(o, a), Colormap) else _canon(getattr(o, a))]
+                            for a in sorted(o._atts) if a != 'preferred_cmap']
+    if isinstance(o, Data):
+        return ["data", _atom(o.label), [[_atom(c.label), _canon(np.asarray(o[c]))] for c in o.main_components + o.derived_components]]
+    raise TypeError("no canonical form for %r" % (type(o),))
+
+
+def _gen_other(kind, rng):
+    """-> (object to wrap, type forced, observe(loaded wrapper) -> canonical form)"""
+    import astropy.units as u
+    import shapely
+    from glue.core import ComponentID, Component, VisualAttributes
+    from glue.core.component_id import PixelComponentID
+    from glue.core.component import CategoricalComponent
+    from glue.core.roi import RectangularROI
+    from glue.core.subset import RoiSubsetState, SubsetState
+    from glue.core.component_link import ComponentLink
+    from glue.core.link_helpers import identity
+    ints = lambda n: [rng.randint(-9, 9) for _ in range(n)]  # noqa: E731
+    if kind == "slice":
+        return slice(rng.choice([None, 1, 2]), rng.choice([None, 5, 9]), rng.choice([None, 1, 3])), slice, None
+    if kind == "dict":
+        return {"a": slice(1, rng.randint(2, 9)), "b": rng.randint(0, 9), "c": "txt", "d": [1, 2, rng.randint(0, 5)]}, dict, None
+    if kind == "list":
+        return [slice(0, rng.randint(1, 5)), rng.randint(0, 9), "s", [1, 2]], list, None
+    if kind == "tuple":
+        return (slice(0, rng.randint(1, 5)), rng.randint(0, 9), "s"), tuple, None
+    if kind == "set":
+        return {slice(0, rng.randint(1, 5))} if sys.version_info >= (3, 12) else {ComponentID("q")}, set, None
+    if kind == "ndarray":
+        shape = rng.choice([(3,), (2, 2), (0,), (1, 3)])
+        dt = rng.choice([np.int64, np.float64, np.int32, bool])
+        return (np.arange(int(np.prod(shape))).reshape(shape) * rng.randint(1, 3)).astype(dt), np.ndarray, None
+    if kind == "datetime64":
+        return np.datetime64("2019-0%d-1%d" % (rng.randint(1, 9), rng.randint(0, 9))), np.datetime64, None
+    if kind == "unit":
+        return rng.choice([u.m / u.s, u.Jy, u.km, u.deg, u.m ** 2]), u.UnitBase, None
+    if kind == "cmap":
+        from matplotlib import cm
+        return rng.choice([cm.viridis, cm.gray, cm.plasma]), type(cm.viridis).__mro__[1] if False else __import__("matplotlib").colors.Colormap, None
+    if kind == "geom":
+        return shapely.Point(rng.randint(0, 5), rng.randint(0, 5)), shapely.Geometry, None
+    if kind == "cid":
+        return ComponentID("lab%d" % rng.randint(0, 9)), ComponentID, None
+    if kind == "pixcid":
+        a = rng.randint(0, 2)
+        return PixelComponentID(a, "Pixel Axis %d [x]" % a), PixelComponentID, None
+    if kind == "comp":
+        return Component(np.array(ints(rng.randint(1, 4)), dtype=rng.choice([np.int64, float])), units=rng.choice([None, "m", "Jy"])), Component, None
+    if kind == "catcomp":
+        return CategoricalComponent(np.array([rng.choice(["a", "b", "c"]) for _ in range(rng.randint(1, 5))]), units=rng.choice([None, "m"])), CategoricalComponent, None
+    if kind == "style":
+        v = VisualAttributes()
+        v.color = rng.choice(PALETTE)
+        v.markersize = rng.randint(1, 9)
+        v.alpha = rng.randint(0, 4) / 4
+        v.linewidth = rng.randint(1, 4)
+        v.marker = rng.choice(["o", "s", "^"])
+        return v, VisualAttributes, None
+    if kind in ("roistate", "emptystate", "complink"):
+        d = Data(x=np.array(ints(4), dtype=np.int64), y=np.array(ints(4), dtype=np.int64), label="dd")
+        if kind == "complink":
+            cid = ComponentID("ident")
+            d.add_component_link(ComponentLink([d.id["x"]], cid, using=identity))
+            return [d], ComponentLink, (lambda w: _canon(w[0]))
+        if kind == "roistate":
+            lo, hi = sorted([rng.randint(-9, 9), rng.randint(-9, 9)])
+            st = RoiSubsetState(d.id["x"], d.id["y"], RectangularROI(lo - 0.5, hi + 0.5, -3.5, 6.5))
+            typ = RoiSubsetState
+        else:
+            st = SubsetState()
+            typ = SubsetState
+        sub = d.new_subset(label="sub")
+        sub.subset_state = st
+        return [d, st], typ, (lambda w: ["masked", _canon(w[0]), [int(x) for x in w[0].get_mask(w[1])], _atom(type(w[1]).__name__)])
+    raise ValueError(kind)
+
+
+OTHER_KINDS = ["slice", "dict", "list", "tuple", "set", "ndarray", "datetime64", "unit", "cmap", "geom", "cid",
+               "pixcid", "comp", "catcomp", "style", "roistate", "emptystate", "complink"]
+
+
+class RoundTripOther(Family):
+    """Every registered version of the other saver/loader pairs, on generated objects."""
+    name = "rt1"
+    exhaustive = False
+    batch = 60
+    budget_share = 1.0
+
+    def cases(self, tier, rng):
+        import random as _r
+        n = 6 if tier == "quick" else 60
+        for kind in OTHER_KINDS:
+            _, typ, _ = _gen_other(kind, _r.Random(0))
+            reg = GlueSerializer.dispatch._data.get(typ, {})
+            for v in (sorted(reg) or [1]):
+                for i in range(n):
+                    yield [kind, v, rng.randint(0, 10 ** 6)]
+
+    def reset(self):
+        Registry()._registry.clear()
+
+    def run_impl(self, case):
+        import random as _r
+        kind, v, seed = case
+        obj, typ, obs = _gen_other(kind, _r.Random(seed))
+        wrapper = obj if isinstance(obj, list) and obs is not None else [obj, "wrap"]
+        force = {typ: v}
+        before = obs(wrapper) if obs is not None else _canon(wrapper[0])
+        try:
+            txt = VersionedSerializer(wrapper, force, include_data=True).dumps()
+        except S.GlueSerializeError:
+            return "save-error"
+        rec = json.loads(txt)
+        want = "%s.%s" % (typ.__module__, typ.__name__)
+        seen = [r_ for r_ in rec.values() if isinstance(r_, dict) and lookup_is_subclass(r_.get("_type"), typ)]
+        if typ is not list and not any(r_.get("_protocol", 1) == v for r_ in seen) and not _inline_has(rec, typ, v):
+            return ["type-not-written", _atom(want)]
+        w2 = GlueUnSerializer.loads(txt).object("__main__")
+        after = obs(w2) if obs is not None else _canon(w2[0])
+        return [before, after]
+
+    def line(self, case, pyout):
+        return sx(["rt1", [case[0], case[1]], pyout])
+
+    def signature(self, case, po, res):
+        return {"kind": case[0], "version": case[1]}
+
+
+def lookup_is_subclass(name, typ):
+    if not isinstance(name, str):
+        return False
+    try:
+        c = S.lookup_class_with_patches(name)
+    except Exception:
+        return False
+    try:
+        return isinstance(c, type) and issubclass(c, typ)
+    except TypeError:
+        return False
+
+
+def _inline_has(rec, typ, v):
+    """records nested inside other records (context.do) also count"""
+    def walk(x):
+        if isinstance(x, dict):
+            if lookup_is_subclass(x.get("_type"), typ) and x.get("_protocol", 1) == v:
+                return True
+            return any(walk(y) for y in x.values())
+        if isinstance(x, list):
+            return any(walk(y) for y in x)
+        return False
+    return walk(rec)
+
+
+
 PROP = Property(
     id="C12",
     title="Every serialisation protocol version ever registered still loads what it saved",
@@ -644,8 +855,9 @@ PROP = Property(
         "C12.patch_keys_unique", "C12.patch_targets_importable", "C12.no_capture_partial",
         "C12.no_capture_witness_F12", "C12.registry_consecutive", "C12.saver_loader_versions_match",
         "C12.save_uses_newest_table", "C12.registry_keys_unique",
+        "C12.load_v_save_v_data", "C12.load_v_save_v", "C12.newest_is_lossless",
     ],
-    families=[Tables(), Dispatch(), Patch(), VDict(), RoundTrip()],
+    families=[Tables(), Dispatch(), Patch(), VDict(), RoundTrip(), RoundTripOther()],
     pre_build=pre_build,
     trusted_base=[
         "harness/translate/c12.py reads the registries, PATH_PATCHES and the class table off the imported package and interns names (interning and the inside-'glue.' flags are re-checked by the compiled driver on every run, the live tables of the harness process are compared with the generated ones)",
